@@ -9,7 +9,6 @@ case where mechanism and definition differ (candidates) and exports cases with t
 concretises every exported case with hostile strings, stores it, sends the LogQL text through the REAL
 /loki/api/v1/query_range route (real parser, planners, post-processors; SQL run by chsql on the real DDL) and compares
 the JSON answer with the definition's result."""
-import concurrent.futures
 import hashlib
 import json
 import os
@@ -24,26 +23,29 @@ SPECDIR = os.path.join(vlib.SPEC, 'query')
 
 CFG = '''SPECIFICATION Spec
 CONSTANTS
-  Frag = "%(frag)s"
-  MaxStreams = %(maxstreams)d
+  Frags <- RunFrags
+  Mods <- RunMods
+  ModsDev <- RunModsDev
+  DBMods <- RunDBMods
+  MaxStreams = 3
   MaxMatchers = 2
   MaxEntries = %(maxentries)d
-  ExportMod = %(mod)d
   ExportSeed = %(seed)d
-  ExportModDev = %(moddev)d
-  SCases <- %(scases)s
+  SCases <- DataSCases
 INVARIANTS DefinitionWellFormed MechanismWellFormed NoLimitMonotone Export
 CHECK_DEADLOCK FALSE
 '''
 
 TIERS = {
-    # frag: (ExportMod, ExportModDev)
-    'quick': {'M': (14, 14), 'L': (1, 1), 'P': (1, 1), 'W': (40, 40), 'S': (1, 1), 'maxentries': 3, 'nS': 400},
+    # frag: (Mods: export 1 case in n, ModsDev: the same for cases where mechanism and definition differ,
+    #        DBMods: enumerate the seeded 1/n sample of the databases; 1 = all)
+    'quick': {'M': (20, 20), 'L': (1, 1), 'P': (1, 1), 'W': (20, 20, 3), 'S': (1, 1), 'maxentries': 3, 'nS': 300},
     'thorough': {'M': (1, 1), 'L': (1, 1), 'P': (1, 1), 'W': (18, 18), 'S': (1, 1), 'maxentries': 4, 'nS': 6000},
 }
+FRAGS = ['M', 'L', 'P', 'W', 'S']
 
 _CASE = re.compile(r'^<<"C0[78]CASE", "(.*)">>$')
-_DEV = re.compile(r'^<<"C0[78]DEV", (\d+), "([a-z-]+)">>$')
+_DEV = re.compile(r'^<<"C0[78]DEV", (\d+), "([A-Z])", "([a-z-]+)">>$')
 
 
 def parse_tlc_cases(out):
@@ -57,7 +59,7 @@ def parse_tlc_cases(out):
                 continue
             m = _DEV.match(line.strip())
             if m:
-                devs[int(m.group(1))] = m.group(2)
+                devs[int(m.group(1))] = (m.group(2), m.group(3))
     return cases, devs
 
 
@@ -215,43 +217,50 @@ def rand_case(r):
     return {'q': q, 'db': db}
 
 
-def data_module(name, extends, cases):
+def run_module(name, extends, frags, tiers, cases):
+    mods = '[%s]' % ', '.join('%s |-> %d' % (f, tiers[f][0]) for f in frags)
+    modsdev = '[%s]' % ', '.join('%s |-> %d' % (f, tiers[f][1]) for f in frags)
+    dbmods = '[%s]' % ', '.join('%s |-> %d' % (f, tiers[f][2] if len(tiers[f]) > 2 else 1) for f in frags)
     body = ',\n  '.join(vlib.tla_value(c) for c in cases)
-    return '---- MODULE %s ----\nEXTENDS %s\nDataSCases == <<\n  %s\n>>\n====\n' % (name, extends, body)
+    return ('---- MODULE %s ----\nEXTENDS %s\nRunFrags == {%s}\nRunMods == %s\nRunModsDev == %s\nRunDBMods == %s\nDataSCases == <<\n  %s\n>>\n====\n' % (
+        name, extends, ', '.join('"%s"' % f for f in frags), mods, modsdev, dbmods, body))
 
 
 # ------------------------------------------------------------------------------------------------------------------
-def tlc_fragment(frag, tier, sd, seed, mc_module='MC_LogQL', gen=rand_case, cfg_tpl=CFG, extra_consts=None):
-    t = TIERS[tier]
-    mod, moddev = t[frag]
-    consts = {'frag': frag, 'maxstreams': 3, 'maxentries': t['maxentries'], 'mod': mod, 'moddev': moddev,
-              'seed': seed % 1000003, 'scases': 'EmptyCases'}
-    consts.update(extra_consts or {})
-    module = mc_module + '.tla'
-    extra = []
-    if frag == 'S':
-        r = random.Random(seed * 7919 + 17)
-        cases = [gen(r) for _ in range(t['nS'])]
-        name = mc_module + 'Run' + frag
-        p = os.path.join(sd, name + '.tla')
-        open(p, 'w').write(data_module(name, mc_module, cases))
-        extra.append(p)
-        module = name + '.tla'
-        consts['scases'] = 'DataSCases'
-    cfgname = '%s_%s.cfg' % (module[:-4], frag)
+def tlc_run(tier, sd, seed, frags=None, mc_module='MC_LogQL', gen=None, cfg_tpl=None, tiers=None, attempt=0):
+    """One TLC run over all fragments: returns per-fragment case lists and mechanism/definition differences."""
+    tiers = tiers or TIERS
+    frags = frags or FRAGS
+    gen = gen or rand_case
+    t = tiers[tier]
+    r = random.Random(seed * 7919 + 17)
+    cases = [gen(r) for _ in range(t['nS'])] if 'S' in frags else []
+    name = mc_module + 'Run'
+    p = os.path.join(sd, name + '.tla')
+    open(p, 'w').write(run_module(name, mc_module, frags, t, cases))
+    cfgname = name + '.cfg'
     cfgp = os.path.join(sd, cfgname)
-    open(cfgp, 'w').write(cfg_tpl % consts)
-    extra.append(cfgp)
-    res = vlib.tlc(SPECDIR, module, cfgname, workers={'S': 1, 'L': 1, 'P': 4, 'M': 4, 'W': 6}.get(frag, 4), timeout=1500, copy_extra=extra)
+    open(cfgp, 'w').write((cfg_tpl or CFG) % {'maxentries': t['maxentries'], 'seed': seed % 1000003})
+    res = vlib.tlc(SPECDIR, name + '.tla', cfgname, workers=8, timeout=2400, copy_extra=[p, cfgp])
     try:
         if res['violated']:
-            raise vlib.Infra('TLC: invariant %s violated in fragment %s of %s (the specification is inconsistent):\n%s' % (
-                res['violated'], frag, mc_module, res['out'][-2500:]))
+            raise vlib.Infra('TLC: invariant %s violated in %s (the specification is inconsistent):\n%s' % (
+                res['violated'], mc_module, res['out'][-2500:]))
         if not res.get('finished') or 'No error has been found' not in res['out']:
-            raise vlib.Infra('TLC did not finish fragment %s: %s' % (frag, res['out'][-2000:]))
-        cases, devs = parse_tlc_cases(res['out'])
-        return {'frag': frag, 'cases': cases, 'devs': devs, 'states': res.get('distinct', 0), 'generated': res.get('generated', 0),
-                'wall_s': round(res['wall'], 1)}
+            if attempt == 0 and 'rror' not in res['out'][-3000:]:
+                # another checker's timeout handler kills every TLC on the machine: try once more
+                return tlc_run(tier, sd, seed, frags, mc_module, gen, cfg_tpl, tiers, attempt=1)
+            raise vlib.Infra('TLC did not finish %s: %s' % (mc_module, res['out'][-2000:]))
+        cases_txt, devs = parse_tlc_cases(res['out'])
+        frs = []
+        for f in frags:
+            tag = '"frag":"%s"' % f
+            frs.append({'frag': f, 'cases': [c for c in cases_txt if c.startswith('{' + tag)],
+                        'devs': {i: d[1] for i, d in devs.items() if d[0] == f}})
+        got = sum(len(fr['cases']) for fr in frs)
+        if got != len(cases_txt):
+            raise vlib.Infra('could not attribute %d exported cases to fragments' % (len(cases_txt) - got))
+        return frs, {'states': res.get('distinct', 0), 'generated': res.get('generated', 0), 'wall_s': round(res['wall'], 1)}
     finally:
         vlib.tlc_cleanup(res)
 
@@ -305,9 +314,7 @@ def run(tier):
     binp = vlib.go_build('cmd/c07', 'c07')
     sd = vlib.scratch('c07')
     try:
-        frags = ['M', 'L', 'P', 'W', 'S']
-        with concurrent.futures.ThreadPoolExecutor(max_workers=5) as ex:
-            frs = list(ex.map(lambda f: tlc_fragment(f, tier, sd, vlib.seed()), frags))
+        frs, tl = tlc_run(tier, sd, vlib.seed())
         cases = []
         for fr in frs:
             if not fr['cases']:
@@ -324,13 +331,14 @@ def run(tier):
             raise vlib.Infra('vacuous: only %d non-trivial cases ran' % result['nontrivial_cases'])
         ndev = sum(len(fr['devs']) for fr in frs)
         cov = {
-            'states': sum(fr['states'] for fr in frs),
-            'transitions': sum(fr['generated'] for fr in frs),
+            'states': tl['states'],
+            'transitions': tl['generated'],
+            'tlc_wall_s': tl['wall_s'],
             'traces_validated_against_impl': result['cases_run'],
             'samples': result.get('samples') or [{}],
             'exhaustive': tier == 'thorough',
             'distinct_nontrivial': result['nontrivial_cases'],
-            'fragments': [{k: (fr[k] if k not in ('cases', 'devs') else len(fr[k])) for k in fr} for fr in frs],
+            'fragments': [{'frag': fr['frag'], 'cases_exported': len(fr['cases']), 'mechanism_differs': len(fr['devs'])} for fr in frs],
             'cases_where_mechanism_differs_from_definition': ndev,
             'mechanism_difference_classes': {f['frag']: dict((c, list(f['devs'].values()).count(c)) for c in set(f['devs'].values())) for f in frs},
             'candidates_confirmed_against_real_code': result['dev_cases_matching_mechanism_model'],
